@@ -51,8 +51,7 @@ let show_entries l =
 
 exception Stop
 
-let () =
-  iter_cases (fun id c ->
+let small_case id c =
     let ntrees = int_of_sx (List.hd (args (field "ntrees" c))) in
     let ops = args (field "ops" c) and obs = args (field "obs" c) in
     let st = ref (init (nat_of_int ntrees)) in
@@ -285,4 +284,425 @@ let () =
         count "ops";
         if !found then raise Stop) ops
     with Stop -> ());
-    count (Printf.sprintf "ntrees_%d" ntrees))
+    count (Printf.sprintf "ntrees_%d" ntrees)
+
+(* ------------------------------------------------------------------------------------------------
+   Scale cases (input field (scale 1), macro operations, see harness/cmd/c05/scale.go): trees of
+   10^3 .. 10^6 elements.  The bulk observations are in the side file named by the case.
+   - The sorted-map specification is kept in an OCaml Map (key -> node, value) driven only by the
+     inputs and the node indexes the implementation returned: Spec.v's association lists are
+     quadratic on 10^5 elements.  Every answer (Insert / DeleteWithKey flags, every position of a
+     forward / backward iteration, the element a sweeping iterator stands on while others are deleted
+     behind it, FindGE / FindLE / Get / Min / Max / Len) is compared with it as it comes (PROPFAIL).
+   - At every checkpoint (chk) the map is turned into the entry list of Spec.v and the extracted,
+     proved-sound oracle judges the snapshot of the real arena, for every tree: snapshot_map_okb
+     (entries AND node ids = iterator stability), snapshot_rb_okb, links_okb, height_okb; Item() of
+     the held iterators is compared with the map (PROPFAIL).
+   - The model is run with its tree-level functions (mem / ins / blacken = Insert, delete_key,
+     relabel = CloneDeep, it_find_ge, it_find_le, get, min_id, it_max, tsize); `step` is not used
+     because its malloc check flattens all trees at every allocation.  At every checkpoint the model
+     trees are compared with the real arena cell for cell, parent links and headers included; the
+     allocator rule (a gap is reused whenever there is one, else storage grows by one cell), "every
+     cell outside the trees is zero" and "gaps = complement of the live cells" are checked with
+     arrays (MISMATCH). *)
+module IMap = Map.Make (Int)
+
+let side_cache : (string, in_channel) Hashtbl.t = Hashtbl.create 2
+
+let read_side (path : string) (off : int) (n : int) : Bytes.t =
+  let ch = try Hashtbl.find side_cache path with Not_found ->
+    let ch = (try open_in_bin path with Sys_error m -> failwith ("side file: " ^ m)) in
+    Hashtbl.add side_cache path ch; ch in
+  let b = Bytes.create (4 * n) in
+  (try LargeFile.seek_in ch (Int64.of_int (4 * off)); really_input ch b 0 (4 * n)
+   with End_of_file -> failwith "side file truncated");
+  b
+
+let wd (b : Bytes.t) (i : int) : int = Int32.to_int (Bytes.get_int32_le b (4 * i)) land 0xFFFFFFFF
+
+let add_count (k : string) (n : int) =
+  Hashtbl.replace counters k (n + try Hashtbl.find counters k with Not_found -> 0)
+
+let show_some (l : ((z * z) * z) list) (from : int) : string =
+  let rec drop n l = if n <= 0 then l else match l with [] -> [] | _ :: r -> drop (n - 1) r in
+  let rec take n l = if n <= 0 then [] else match l with [] -> [] | x :: r -> x :: take (n - 1) r in
+  show_entries (take 4 (drop from l))
+
+let scale_case id c =
+  let ntrees = int_of_sx (List.hd (args (field "ntrees" c))) in
+  let ops = Array.of_list (args (field "ops" c)) in
+  let side_path, side_base, obs =
+    match args (field "obs" c) with
+    | s :: r when tag s = "side" -> atom (List.hd (args s)), int_of_sx (List.nth (args s) 1), Array.of_list r
+    | _ -> failwith "scale case without a side file" in
+  let read_side p off n = read_side p (side_base + off) n in
+  (* a tree is judged again at a checkpoint only if an operation, a changed cell or a changed header
+     touched it since the last one (the verdict is a function of its cells, its header and its map) *)
+  let dirty = Array.make ntrees true in
+  let nops = Array.length ops in
+  let spec = Array.make ntrees IMap.empty in
+  let live : (int, int * int) Hashtbl.t = Hashtbl.create 4096 in     (* node -> (tree, key) *)
+  let mt = Array.make ntrees E in
+  let hi = ref 0 in                                                   (* largest index handed out *)
+  let sn = { sz = 0; cells = Array.make 1024 zero_cell; gaps = []; hdr = Array.init ntrees (fun _ -> [| 0; 0; 0; 0 |]) } in
+  let propfail id m = propfail id m; raise Stop in
+  let mismatch id m = mismatch id m; raise Stop in
+  let z = z_of_int in
+  let timing = Sys.getenv_opt "C05_TIMING" <> None in
+  (try
+    for i = 0 to nops - 1 do
+      if i >= Array.length obs then raise Stop;
+      let o = ops.(i) in
+      let t0 = Sys.time () in
+      let here = Printf.sprintf "op#%d/%d %s" i nops (string_of_sx o) in
+      let r = List.hd (args obs.(i)) in
+      (match tag r with
+       | "panic" -> propfail id (here ^ " the operation panicked inside the tree code")
+       | "hang" -> propfail id (here ^ " an operation of this case does not terminate")
+       | _ -> ());
+      let a = Array.of_list (List.map int_of_sx (args o)) in
+      let ra k = int_of_sx (List.nth (args r) k) in
+      (* a node index handed out by malloc: fresh, and a gap whenever there is one *)
+      let alloc what nid =
+        if nid = 0 || nid = nl || Hashtbl.mem live nid then
+          propfail id (Printf.sprintf "%s %s: the new element is at node %d, which is in use or reserved" here what nid);
+        if nid > !hi then begin
+          if nid <> !hi + 1 then mismatch id (Printf.sprintf "%s %s: malloc returns index %d, len(storage) is %d" here what nid (!hi + 1));
+          if Hashtbl.length live <> !hi then mismatch id (Printf.sprintf "%s %s: storage grows to index %d although there is a gap" here what nid);
+          hi := nid
+        end in
+      let model_delete what t k ok =
+        match delete_key (z k) mt.(t) with
+        | DNotFound -> if ok then mismatch id (Printf.sprintf "%s %s: key %d is deleted, the model does not have it" here what k)
+        | DDone t' -> if not ok then mismatch id (Printf.sprintf "%s %s: key %d is not deleted, the model has it" here what k); mt.(t) <- t'
+        | DUnspec -> mismatch id (Printf.sprintf "%s %s: the model leaves the deletion of key %d unspecified" here what k) in
+      let spec_delete t k =
+        (match IMap.find_opt k spec.(t) with Some (nid, _) -> Hashtbl.remove live nid | None -> ());
+        spec.(t) <- IMap.remove k spec.(t) in
+      let ge t q = match IMap.find_first_opt (fun k -> k >= q) spec.(t) with Some (_, (n, _)) -> n | None -> 0 in
+      let le t q = match IMap.find_last_opt (fun k -> k <= q) spec.(t) with Some (_, (n, _)) -> n | None -> nl in
+      let answer what t got expect =
+        if got <> expect then
+          propfail id (Printf.sprintf "%s %s on tree %d (%d entries) answers node %d but the sorted map says %d" here what t (IMap.cardinal spec.(t)) got expect) in
+      let m_answer what got model =
+        if got <> model then mismatch id (Printf.sprintf "%s %s: implementation %d, model %d" here what got model) in
+      (* iteration: the visited nodes must be the entries of the map in order; returns them *)
+      let follow what t dir (n : int) (node_at : int -> int) (key_at : (int -> int) option) limit final =
+        let size = IMap.cardinal spec.(t) in
+        let seq = ref (if dir = 0 then IMap.to_seq spec.(t) else IMap.to_rev_seq spec.(t)) in
+        for j = 0 to n - 1 do
+          match !seq () with
+          | Seq.Nil -> propfail id (Printf.sprintf "%s %s: position %d is node %d, but the sorted map has only %d entries" here what j (node_at j) size)
+          | Seq.Cons ((k, (nid, _)), rest) ->
+              seq := rest;
+              let kk = (match key_at with Some f -> f j | None -> k) in
+              if nid <> node_at j || kk <> k then
+                propfail id (Printf.sprintf "%s %s: position %d of the iteration is node %d (key %d), entry %d of the sorted map is node %d (key %d)"
+                               here what j (node_at j) kk j nid k)
+        done;
+        let expect_n = if limit = 0 then size else min limit size in
+        if n <> expect_n then
+          propfail id (Printf.sprintf "%s %s: the iteration ends after %d elements, %d were to be visited (map: %d entries)" here what n expect_n size);
+        let expect_final = (match !seq () with Seq.Nil -> if dir = 0 then 0 else nl | Seq.Cons ((_, (nid, _)), _) -> nid) in
+        if final <> expect_final then
+          propfail id (Printf.sprintf "%s %s: after %d elements the iterator is at node %d, the sorted map says %d" here what n final expect_final) in
+      (match tag r, tag o with
+       | "skip", _ -> count "ops_skipped"
+       | "fill", "fill" ->
+           let t = a.(0) in
+           dirty.(t) <- true;
+           let off = ra 0 and n = ra 1 in
+           let b = read_side side_path off (4 * n) in
+           for j = 0 to n - 1 do
+             let k = wd b (4 * j) and v = wd b (4 * j + 1) and ok = wd b (4 * j + 2) <> 0 and nid = wd b (4 * j + 3) in
+             let what = Printf.sprintf "element #%d (key %d)" j k in
+             let expect = not (IMap.mem k spec.(t)) in
+             if ok <> expect then
+               propfail id (Printf.sprintf "%s %s: Insert returns %b but the key is %s" here what ok (if expect then "absent" else "present"));
+             let zk = z k in
+             (* ins leaves the tree alone when the key is present: a disagreement on a successful
+                insertion shows as a count / cell mismatch at the next checkpoint *)
+             if not ok && not (mem zk mt.(t)) then mismatch id (Printf.sprintf "%s %s: Insert returns false, the model inserts" here what);
+             if ok then begin
+               alloc what nid;
+               spec.(t) <- IMap.add k (nid, v) spec.(t);
+               Hashtbl.replace live nid (t, k);
+               mt.(t) <- blacken (ins (z nid) zk (z v) mt.(t))
+             end else if nid <> 0 then
+               propfail id (Printf.sprintf "%s %s: Insert of an existing key returns node %d instead of the empty iterator" here what nid)
+           done;
+           add_count "scale_inserts" n
+       | "mdel", "mdel" ->
+           let t = a.(0) in
+           dirty.(t) <- true;
+           let off = ra 0 and n = ra 1 in
+           let b = read_side side_path off (2 * n) in
+           for j = 0 to n - 1 do
+             let k = wd b (2 * j) and ok = wd b (2 * j + 1) <> 0 in
+             let what = Printf.sprintf "element #%d (key %d)" j k in
+             let expect = IMap.mem k spec.(t) in
+             if ok <> expect then
+               propfail id (Printf.sprintf "%s %s: DeleteWithKey returns %b but the key is %s" here what ok (if expect then "present" else "absent"));
+             spec_delete t k;
+             model_delete what t k ok
+           done;
+           add_count "scale_deletes_by_key" n
+       | "sweep", "sweep" ->
+           let t = a.(0) and dir = a.(1) and limit = a.(4) in
+           dirty.(t) <- true;
+           let off = ra 0 and n = ra 1 and final = ra 2 in
+           let b = read_side side_path off (3 * n) in
+           follow "sweep" t dir n (fun j -> wd b (3 * j)) (Some (fun j -> wd b (3 * j + 1))) limit final;
+           let nd = ref 0 in
+           for j = 0 to n - 1 do
+             if wd b (3 * j + 2) <> 0 then begin
+               let k = wd b (3 * j + 1) in
+               incr nd;
+               spec_delete t k;
+               model_delete (Printf.sprintf "position %d" j) t k true
+             end
+           done;
+           add_count "scale_iterated" n; add_count "scale_deletes_by_iterator" !nd
+       | "walk", "walk" ->
+           let t = a.(0) and dir = a.(1) in
+           let off = ra 0 and n = ra 1 and final = ra 2 in
+           let b = read_side side_path off n in
+           follow "walk" t dir n (fun j -> wd b j) None 0 final;
+           add_count "scale_iterated" n
+       | "probe", "probe" ->
+           let t = a.(0) in
+           List.iter (fun q ->
+             let g k = int_of_sx (List.nth (args q) k) in
+             match tag q with
+             | "len" ->
+                 if g 0 <> IMap.cardinal spec.(t) then propfail id (Printf.sprintf "%s Len=%d but the map has %d entries" here (g 0) (IMap.cardinal spec.(t)));
+                 m_answer "Len" (g 0) (int_of_z (tsize mt.(t)))
+             | "min" ->
+                 answer "Min" t (g 0) (match IMap.min_binding_opt spec.(t) with Some (_, (n, _)) -> n | None -> 0);
+                 m_answer "Min" (g 0) (int_of_z (min_id mt.(t)))
+             | "max" ->
+                 answer "Max" t (g 0) (match IMap.max_binding_opt spec.(t) with Some (_, (n, _)) -> n | None -> nl);
+                 m_answer "Max" (g 0) (int_of_z (it_max mt.(t)))
+             | "q" ->
+                 let k = g 0 in
+                 count "scale_queries";
+                 answer (Printf.sprintf "FindGE(%d)" k) t (g 1) (ge t k);
+                 answer (Printf.sprintf "FindLE(%d)" k) t (g 2) (le t k);
+                 let expect = (match IMap.find_opt k spec.(t) with Some (_, v) -> (1, v) | None -> (0, 0)) in
+                 if (g 3, g 4) <> expect then
+                   propfail id (Printf.sprintf "%s Get(%d) = (present %d, value %d), the sorted map says (present %d, value %d)" here k (g 3) (g 4) (fst expect) (snd expect));
+                 m_answer (Printf.sprintf "FindGE(%d)" k) (g 1) (int_of_z (it_find_ge (z k) mt.(t)));
+                 (match it_find_le (z k) mt.(t) with
+                  | Some n -> m_answer (Printf.sprintf "FindLE(%d)" k) (g 2) (int_of_z n)
+                  | None -> mismatch id (Printf.sprintf "%s FindLE(%d): unspecified in the model" here k));
+                 if (match get (z k) mt.(t) with Some v -> (1, int_of_z v) | None -> (0, 0)) <> (g 3, g 4) then
+                   mismatch id (Printf.sprintf "%s Get(%d) differs from the model" here k)
+             | _ -> failwith "probe") (args r)
+       | "it", "hold" ->
+           let t = a.(0) and k = a.(1) in
+           answer (Printf.sprintf "FindGE(%d)" k) t (ra 0) (ge t k);
+           m_answer "FindGE" (ra 0) (int_of_z (it_find_ge (z k) mt.(t)))
+       | "u", "erase" ->
+           let t = a.(0) in
+           dirty.(t) <- true;
+           IMap.iter (fun _ (nid, _) -> Hashtbl.remove live nid) spec.(t);
+           add_count "scale_erased" (IMap.cardinal spec.(t));
+           spec.(t) <- IMap.empty;
+           mt.(t) <- E
+       | "clone", "clone" ->
+           let s = a.(0) and d = a.(1) in
+           dirty.(d) <- true;
+           let off = ra 0 and n = ra 1 in
+           if n <> IMap.cardinal spec.(s) then
+             propfail id (Printf.sprintf "%s the clone has %d elements, the original %d" here n (IMap.cardinal spec.(s)));
+           let b = read_side side_path off n in
+           let j = ref 0 in
+           let m = ref IMap.empty in
+           IMap.iter (fun k (_, v) ->
+             let nid = wd b !j in
+             alloc (Printf.sprintf "element #%d of the clone" !j) nid;
+             Hashtbl.replace live nid (d, k);
+             m := IMap.add k (nid, v) !m;
+             incr j) spec.(s);
+           spec.(d) <- !m;
+           let zids = List.rev (let acc = ref [] in for j = 0 to n - 1 do acc := z (wd b j) :: !acc done; !acc) in
+           mt.(d) <- fst (relabel mt.(s) zids);
+           add_count "scale_cloned" n
+       | "chk", "chk" ->
+           count "scale_checkpoints";
+           sn.sz <- int_of_sx (List.hd (args (field "sz" r)));
+           let (off, ncells, ngaps) = (match List.map int_of_sx (args (field "side" r)) with [x; y; w] -> (x, y, w) | _ -> failwith "chk side") in
+           let b = read_side side_path off (7 * ncells + ngaps) in
+           for j = 0 to ncells - 1 do
+             let ci = wd b (7 * j) in
+             (match Hashtbl.find_opt live ci with Some (t, _) -> dirty.(t) <- true | None -> ());
+             set_cell sn ci (Array.init 6 (fun k -> wd b (7 * j + 1 + k)))
+           done;
+           List.iter (fun h -> if tag h = "h" then
+             (match List.map int_of_sx (args h) with
+              | [t; x; y; cc; d] ->
+                  if sn.hdr.(t) <> [| x; y; cc; d |] then dirty.(t) <- true;
+                  sn.hdr.(t) <- [| x; y; cc; d |]
+              | _ -> failwith "hdr")) (args r);
+           (* ---- the property oracle on the snapshot, tree by tree ---- *)
+           let memo : cell option array = Array.make (max 1 sn.sz) None in
+           let arena = (fun zi ->
+             let i = int_of_z zi in
+             if i < 0 || i >= Array.length memo then coq_cell (cell_at sn i)
+             else match memo.(i) with
+               | Some cl -> cl
+               | None -> let cl = coq_cell (cell_at sn i) in memo.(i) <- Some cl; cl) in
+           for t = 0 to ntrees - 1 do if dirty.(t) then begin
+             let hd = sn.hdr.(t) in
+             let h = { hroot = z hd.(0); hmin = z hd.(1); hmax = z hd.(2); hcount = z hd.(3) } in
+             let sl = IMap.fold (fun k (nid, v) acc -> ((z nid, z k), z v) :: acc) spec.(t) [] in
+             let sl = List.rev sl in
+             let size = IMap.cardinal spec.(t) in
+             add_count "scale_nodes_judged" size;
+             if hd.(3) < 0 then propfail id (Printf.sprintf "%s count of tree %d is negative" here t);
+             if not (snapshot_map_okb arena h sl) then begin
+               let got = elems (arena_tree arena h) in
+               let rec first i x y = match x, y with
+                 | e :: x', f :: y' when e = f -> first (i + 1) x' y'
+                 | _ -> i in
+               let at = first 0 got sl in
+               propfail id (Printf.sprintf "%s tree %d holds %d entries, the sorted map %d; first difference at position %d: tree %s..., sorted map %s... (node:key=value in link order)"
+                              here t (List.length got) size at (show_some got at) (show_some sl at))
+             end;
+             if not (snapshot_rb_okb arena h) then
+               propfail id (Printf.sprintf "%s tree %d (%d entries) is not a red-black search tree (black root, no red-red, equal black height, sorted)" here t size);
+             if not (links_okb arena h) then
+               propfail id (Printf.sprintf "%s tree %d (%d entries): parent links or root/minNode/maxNode/count (%d/%d/%d/%d) are not what the left/right links determine" here t size hd.(0) hd.(1) hd.(2) hd.(3));
+             if not (height_okb (arena_tree arena h)) then
+               propfail id (Printf.sprintf "%s tree %d (%d entries) is deeper than 2*log2(size+1)" here t size)
+           end done;
+           List.iter (fun x ->
+             match ints_of_sx x with
+             | [rr; t; n; k; v] ->
+                 count "iterator_items";
+                 (match Hashtbl.find_opt live n with
+                  | Some (t', k') when t' = t ->
+                      let v' = (match IMap.find_opt k' spec.(t) with Some (_, v') -> v' | None -> -1) in
+                      if k' <> k || v' <> v then
+                        propfail id (Printf.sprintf "%s the iterator in register %d (node %d) shows %d=%d, its element is %d=%d" here rr n k v k' v')
+                  | _ -> propfail id (Printf.sprintf "%s the iterator in register %d points at node %d which is no element of tree %d" here rr n t))
+             | _ -> failwith "rg") (args (field "rg" r));
+           (* ---- fine correspondence: the model trees in the arena, the allocator ---- *)
+           let total = ref 0 in
+           for t = 0 to ntrees - 1 do if not dirty.(t) then total := !total + IMap.cardinal spec.(t) else begin
+             let n = ref 0 in
+             let rid = function E -> 0 | T (_, _, i, _, _, _) -> int_of_z i in
+             let rec cmp p = function
+               | E -> ()
+               | T (c, l, i, k, v, rr) ->
+                   let ci = int_of_z i in
+                   let m = [| int_of_z k; int_of_z v; p; rid l; rid rr; (match c with Black -> 1 | Red -> 0) |] in
+                   if m <> cell_at sn ci then
+                     mismatch id (Printf.sprintf "%s cell %d of tree %d: model %s, implementation %s" here ci t (show_cell m) (show_cell (cell_at sn ci)));
+                   incr n; cmp ci l; cmp ci rr in
+             cmp 0 mt.(t);
+             let mh = [| rid mt.(t); int_of_z (min_id mt.(t)); int_of_z (max_id mt.(t)); !n |] in
+             if mh <> sn.hdr.(t) then
+               mismatch id (Printf.sprintf "%s header of tree %d: model root=%d min=%d max=%d count=%d, implementation root=%d min=%d max=%d count=%d"
+                 here t mh.(0) mh.(1) mh.(2) mh.(3) sn.hdr.(t).(0) sn.hdr.(t).(1) sn.hdr.(t).(2) sn.hdr.(t).(3));
+             total := !total + !n
+           end done;
+           Array.fill dirty 0 ntrees false;
+           let expect_sz = if !hi = 0 then 0 else !hi + 1 in
+           if sn.sz <> expect_sz then mismatch id (Printf.sprintf "%s len(storage) is %d, the largest index handed out is %d" here sn.sz !hi);
+           let nonzero = ref 0 in
+           for ci = 0 to min (Array.length sn.cells) sn.sz - 1 do if sn.cells.(ci) <> zero_cell then incr nonzero done;
+           if !nonzero <> !total || !total <> Hashtbl.length live then
+             mismatch id (Printf.sprintf "%s %d cells of the arena are in use, the trees have %d nodes (model %d)" here !nonzero (Hashtbl.length live) !total);
+           if ngaps <> max 0 (sn.sz - 1) - Hashtbl.length live then
+             mismatch id (Printf.sprintf "%s %d gaps, %d cells, %d live nodes" here ngaps sn.sz (Hashtbl.length live));
+           let prev = ref 0 in
+           for j = 0 to ngaps - 1 do
+             let g = wd b (7 * ncells + j) in
+             if g <= !prev || g >= sn.sz || Hashtbl.mem live g then mismatch id (Printf.sprintf "%s gap %d is live, out of range or listed twice" here g);
+             prev := g
+           done
+       | x, y -> mismatch id (Printf.sprintf "%s observation of kind %s" here x));
+      count "ops"; count ("op_" ^ tag o);
+      if timing then Printf.eprintf "%s %.2f\n%!" (tag o) (Sys.time () -. t0)
+    done
+  with Stop -> ());
+  count "scale_cases"
+
+(* Scale cases are judged in child processes (at most max_children at a time) while the parent goes on
+   with the trace; a child writes its findings and counters to a file that the parent merges at the
+   end, in case order. *)
+let max_children = 4
+let running = ref 0
+let outputs : (int * string) list ref = ref []
+
+let guarded f id c =
+  try f id c with
+  | Failure m -> mismatch id ("driver-failure " ^ m)
+  | Stack_overflow -> mismatch id "driver-stack-overflow"
+  | Not_found -> mismatch id "driver-not-found"
+
+let in_child id c =
+  flush stdout;
+  while !running >= max_children do ignore (Unix.wait ()); decr running done;
+  let file = Printf.sprintf "c05-scale-%d-%d.out" (Unix.getpid ()) id in
+  match (try Unix.fork () with _ -> -1) with
+  | -1 -> guarded scale_case id c
+  | 0 ->
+      (try
+        let fd = Unix.openfile file [Unix.O_WRONLY; Unix.O_CREAT; Unix.O_TRUNC] 0o600 in
+        Unix.dup2 fd Unix.stdout;
+        Hashtbl.reset counters;
+        (try guarded scale_case id c with e -> mismatch id ("driver-exception " ^ Printexc.to_string e));
+        Hashtbl.iter (fun k v -> Printf.printf "COUNTER %s %d\n" k v) counters;
+        flush stdout
+      with _ -> ());
+      Unix._exit 0
+  | _ -> incr running; outputs := (id, file) :: !outputs
+
+let merge_children () =
+  while !running > 0 do ignore (Unix.wait ()); decr running done;
+  List.iter (fun (id, file) ->
+    let complete = ref false in
+    (try
+      let ch = open_in file in
+      (try while true do
+        let line = input_line ch in
+        if String.length line > 8 && String.sub line 0 8 = "COUNTER " then begin
+          complete := true;
+          (match String.split_on_char ' ' line with
+           | [_; k; v] -> add_count k (int_of_string v)
+           | _ -> ())
+        end else begin
+          if String.length line > 8 && String.sub line 0 8 = "MISMATCH" then incr n_mismatch;
+          if String.length line > 8 && String.sub line 0 8 = "PROPFAIL" then incr n_propfail;
+          print_endline line
+        end
+      done with End_of_file -> close_in ch);
+      Sys.remove file
+    with Sys_error _ -> ());
+    if not !complete then mismatch id "driver-failure the process judging this scale case died (out of memory or stack?)")
+    (List.sort compare !outputs)
+
+let () =
+  (* the extracted oracle recurses once per list element (elems, keys, cells): 10^6-element trees
+     need more than the default 8 MB stack *)
+  if Sys.getenv_opt "C05_DRIVER_STACK" = None then begin
+    Unix.putenv "C05_DRIVER_STACK" "1";
+    (try Unix.execv "/bin/sh" [| "sh"; "-c"; "ulimit -s 4194304 2>/dev/null || ulimit -s $(ulimit -H -s) 2>/dev/null; exec \"$0\""; Sys.executable_name |]
+     with _ -> ())
+  end;
+  (* iter_cases of conv.ml, with the merge of the children before the STATS line *)
+  (try while true do
+     let line = input_line stdin in
+     if String.length line > 5 && String.sub line 0 5 = "(case" then begin
+       let s = parse_sx line in
+       let id = match s with L (_ :: i :: _) -> int_of_sx i | _ -> -1 in
+       incr n_cases;
+       match field_opt "scale" s with
+       | Some _ -> in_child id s
+       | None -> guarded small_case id s
+     end
+   done with End_of_file -> ());
+  merge_children ();
+  finish ()
